@@ -3,6 +3,7 @@
 -/
 import VK.Model.Rules
 import VK.Lemmas.Sum
+import VK.Lemmas.STVRun
 
 namespace VK
 
@@ -29,5 +30,227 @@ theorem C01_topM_two_states (p : Profile) (m : Nat) (tb : Option TB) (pri : List
   | raised e => simp [h0, bind, Outcome.bind] at h
   | oracleMismatch => simp [h0, bind, Outcome.bind] at h
   | outOfFuel => simp [h0, bind, Outcome.bind] at h
+
+/-! ### the STV family: exactly `m` winners and a partition at every round, for every configuration -/
+
+/-- the loop keeps the invariant and can only finish with the seat counter at `m` -/
+theorem stvLoop_inv (cfg : STVCfg) (init : Profile) (q : Int) (ω : STVOracle) (hi : init.cands.Nodup)
+    (fuel : Nat) (S : CState) (prev : RoundState) (acc tr : List (RoundState × CState))
+    (hcs : ∀ c ∈ S.hopeful, c ∈ init.cands) (inv : StvInv init.cands S prev (acc.map (·.1)))
+    (h : stvLoop cfg init q ω fuel S prev acc = .ok tr) :
+    ∃ Sf prevf, StvInv init.cands Sf prevf (tr.reverse.map (·.1)) ∧ Sf.nElected = cfg.m := by
+  induction fuel generalizing S prev acc with
+  | zero =>
+    unfold stvLoop at h
+    split at h
+    · rename_i hm
+      injection h with h; subst h
+      exact ⟨S, prev, by simpa using inv, hm⟩
+    · cases h
+  | succ fuel ih =>
+    unfold stvLoop at h
+    split at h
+    · rename_i hm
+      injection h with h; subst h
+      exact ⟨S, prev, by simpa using inv, hm⟩
+    · cases hs : stvStep cfg init q ω (prev.round + 1) S prev with
+      | ok Sr =>
+        obtain ⟨S', r⟩ := Sr
+        simp only [hs, bind, Outcome.bind] at h
+        obtain ⟨inv', hsub, _⟩ := stvStep_inv cfg init q ω _ S S' prev r _ hi hcs inv hs
+        exact ih S' r ((r, S') :: acc) (fun c hc => hcs c (hsub c hc)) (by simpa using inv') h
+      | raised e => simp [hs, bind, Outcome.bind] at h
+      | oracleMismatch => simp [hs, bind, Outcome.bind] at h
+      | outOfFuel => simp [hs, bind, Outcome.bind] at h
+
+theorem electedIn_reverse_length (l : List RoundState) : (electedIn l.reverse).length = (electedIn l).length := by
+  unfold electedIn
+  exact (((List.reverse_perm l).flatMap_right _).flatten).length_eq
+
+/-- **C01 for STV / IRV / SequentialRCV (every quota, transfer rule, mode, tiebreak and oracle).**
+Whenever a count finishes it has elected exactly `m` candidates, and at every recorded round the
+candidates remaining after that round, the candidates elected up to it and the candidates eliminated
+up to it list each candidate of the profile exactly once (`Good`, newest round first; since the
+elected/eliminated lists only grow by appending, a candidate once elected or eliminated keeps that
+status in all later rounds). -/
+theorem C01_stv_exactly_m_and_partition (cfg : STVCfg) (p : Profile) (ω : STVOracle) (res : STVResult)
+    (hc : p.cands.Nodup) (h : stvRun cfg p ω = .ok res) :
+    (electedOf res.states).length = cfg.m ∧ Good p.cands res.states.reverse := by
+  unfold stvRun at h
+  split at h; · cases h
+  split at h; · cases h
+  split at h; · cases h
+  cases h0 : firstPlaceVotes p with
+  | ok sc0 =>
+    simp only [h0, bind, Outcome.bind] at h
+    cases hl : stvLoop cfg p (threshold cfg.quota cfg.m p.total) ω (p.cands.length + 2) (stvInitState p)
+        (initialState p.cands (some sc0)) [(initialState p.cands (some sc0), stvInitState p)] with
+    | ok tr =>
+      simp only [hl, pure, Outcome.ok.injEq] at h
+      subst h
+      have hkeys : sc0.map (·.1) = p.cands := scoreFromRankings_keys p _ sc0 h0
+      have hrem0 : (initialState p.cands (some sc0)).remaining.flatten.Perm p.cands := by
+        have := scoreToRanking_perm sc0
+        rw [hkeys] at this
+        simpa [initialState] using this
+      have inv0 : StvInv p.cands (stvInitState p) (initialState p.cands (some sc0))
+          ([(initialState p.cands (some sc0), stvInitState p)].map (·.1)) := by
+        refine ⟨hc, hrem0, ?_, ?_, ?_, trivial⟩
+        · simp [stvInitState, electedIn, initialState]
+        · simp [stvInitState, electedIn, eliminatedIn, initialState]
+        · simpa [electedIn, eliminatedIn, initialState] using hrem0
+      obtain ⟨Sf, prevf, invf, hm⟩ := stvLoop_inv cfg p _ ω hc _ _ _ _ tr (fun c hc => hc) inv0 hl
+      refine ⟨?_, ?_⟩
+      · show (electedIn (tr.map (·.1))).length = cfg.m
+        rw [← hm, invf.count, List.map_reverse, electedIn_reverse_length]
+      · show Good p.cands (tr.map (·.1)).reverse
+        rw [← List.map_reverse]; exact invf.good
+    | raised e => simp [hl] at h
+    | oracleMismatch => simp [hl] at h
+    | outOfFuel => simp [hl] at h
+  | raised e => simp [h0, bind, Outcome.bind] at h
+  | oracleMismatch => simp [h0, bind, Outcome.bind] at h
+  | outOfFuel => simp [h0, bind, Outcome.bind] at h
+
+/-- reading `Good`: for every recorded round `r` with the earlier rounds `older` the three lists
+partition the candidates -/
+theorem Good_suffix (cands : List Cand) (l : List RoundState) (hg : Good cands l) (r : RoundState)
+    (older : List RoundState) (hs : (r :: older) <:+ l) :
+    (r.remaining.flatten ++ electedIn (r :: older) ++ eliminatedIn (r :: older)).Perm cands := by
+  induction l with
+  | nil => simp at hs
+  | cons x xs ih =>
+    rcases List.suffix_cons_iff.1 hs with h | h
+    · injection h with h1 h2; subst h1 h2; exact hg.1
+    · exact ih hg.2 h
+
+/-- consequence for duplicate-free candidate lists: at no round is a candidate in two of the three
+lists, or twice in one -/
+theorem C01_stv_round_lists_disjoint (cfg : STVCfg) (p : Profile) (ω : STVOracle) (res : STVResult)
+    (hc : p.cands.Nodup) (h : stvRun cfg p ω = .ok res) (r : RoundState) (older : List RoundState)
+    (hs : (r :: older) <:+ res.states.reverse) :
+    (r.remaining.flatten ++ electedIn (r :: older) ++ eliminatedIn (r :: older)).Nodup :=
+  (Good_suffix p.cands _ (C01_stv_exactly_m_and_partition cfg p ω res hc h).2 r older hs).nodup_iff.2 hc
+
+/-- IRV is STV with one seat: exactly one winner -/
+theorem C01_irv_one_winner (p : Profile) (quota : Quota) (tb : Option TB) (ω : STVOracle) (res : STVResult)
+    (hc : p.cands.Nodup) (h : irvRun p quota tb ω = .ok res) : (electedOf res.states).length = 1 := by
+  unfold irvRun at h
+  exact (C01_stv_exactly_m_and_partition _ p ω res hc h).1
+
+/-! ### single-round rules: exactly `m` winners, a partition, and no result across an unbroken tie -/
+
+/-- what a successful "score, then elect the top m" run looks like -/
+theorem topMRun_ok (p : Profile) (m : Nat) (tb : Option TB) (pri : List Cand)
+    (score : Profile → Outcome (List (Cand × Rat))) (st : States)
+    (h : topMRun p m tb pri score = .ok st) :
+    ∃ sc0 r sc1, score p = .ok sc0 ∧
+      electFromRanking pri (scoreToRanking sc0) m (some p) tb = .ok r ∧
+      st = [initialState p.cands (some sc0),
+            { round := 1, remaining := r.remaining, elected := r.elected, eliminated := [],
+              tiebreaks := (match r.tiebreak with | some t => [t] | none => []), scores := sc1 }] := by
+  unfold topMRun at h
+  cases h0 : score p with
+  | ok sc0 =>
+    simp only [h0, bind, Outcome.bind] at h
+    cases h1 : electFromRanking pri (initialState p.cands (some sc0)).remaining m (some p) tb with
+    | ok r =>
+      simp only [h1] at h
+      cases h2 : score (removeCand r.elected.flatten p) with
+      | ok sc1 =>
+        simp only [h2, pure] at h; injection h with h
+        exact ⟨sc0, r, sc1, rfl, h1, h.symm⟩
+      | raised e => simp [h2] at h
+      | oracleMismatch => simp [h2] at h
+      | outOfFuel => simp [h2] at h
+    | raised e => simp [h1] at h
+    | oracleMismatch => simp [h1] at h
+    | outOfFuel => simp [h1] at h
+  | raised e => simp [h0, bind, Outcome.bind] at h
+  | oracleMismatch => simp [h0, bind, Outcome.bind] at h
+  | outOfFuel => simp [h0, bind, Outcome.bind] at h
+
+/-- **C01 for the single-round rules** (Plurality, SNTV, Borda and — through the same body — the
+score rules): a finished election elects exactly `m` candidates, nobody is eliminated, and the
+elected and remaining groups of the final round list every candidate exactly once. `hkeys` says the
+scoring function scores exactly the profile's candidates (true of `scoreFromRankings`:
+`scoreFromRankings_keys`). -/
+theorem C01_topM_count_partition (p : Profile) (m : Nat) (tb : Option TB) (pri : List Cand)
+    (score : Profile → Outcome (List (Cand × Rat))) (st : States) (hc : p.cands.Nodup)
+    (hkeys : ∀ sc, score p = .ok sc → sc.map (·.1) = p.cands)
+    (h : topMRun p m tb pri score = .ok st) :
+    (electedOf st).length = m ∧ eliminatedOf st = [] ∧
+    ∃ last, st.getLast? = some last ∧ (last.elected.flatten ++ last.remaining.flatten).Perm p.cands := by
+  obtain ⟨sc0, r, sc1, h0, h1, rfl⟩ := topMRun_ok p m tb pri score st h
+  have hk := hkeys sc0 h0
+  have hperm0 := scoreToRanking_perm sc0
+  rw [hk] at hperm0
+  have hnd : ∀ g ∈ scoreToRanking sc0, g.Nodup := scoreToRanking_groups_nodup sc0 (by rw [hk]; exact hc)
+  have hsub : ∀ q, some p = some q → q.cands.Nodup ∧ ∀ g ∈ scoreToRanking sc0, ∀ c ∈ g, c ∈ q.cands := by
+    intro q hq; injection hq with hq; subst hq
+    exact ⟨hc, fun g hg c hcg => hperm0.mem_iff.1 (List.mem_flatten.2 ⟨g, hg, hcg⟩)⟩
+  obtain ⟨hcount, hperm⟩ := electFromRanking_count pri _ m (some p) tb r hnd hsub h1
+  refine ⟨?_, ?_, _, rfl, hperm.trans hperm0⟩
+  · simp [electedOf, initialState, hcount]
+  · simp [eliminatedOf, initialState]
+
+/-- **No tiebreak, no result across a tie.** When no tiebreak was requested, a finished election
+means the seat boundary falls between two score groups: the first `m` seats are exactly a union of
+whole groups of equal score. (So candidates tied across the last seat make the rule raise instead —
+`electLoop` returns `ValueError` there.) -/
+theorem C01_topM_no_tiebreak_no_boundary_tie (p : Profile) (m : Nat) (pri : List Cand)
+    (score : Profile → Outcome (List (Cand × Rat))) (st : States) (hc : p.cands.Nodup)
+    (hkeys : ∀ sc, score p = .ok sc → sc.map (·.1) = p.cands)
+    (h : topMRun p m none pri score = .ok st) :
+    ∃ sc0 pre post, score p = .ok sc0 ∧ scoreToRanking sc0 = pre ++ post ∧ pre.flatten.length = m := by
+  obtain ⟨sc0, r, sc1, h0, h1, rfl⟩ := topMRun_ok p m none pri score st h
+  have hk := hkeys sc0 h0
+  have hperm0 := scoreToRanking_perm sc0
+  rw [hk] at hperm0
+  have hnd : ∀ g ∈ scoreToRanking sc0, g.Nodup := scoreToRanking_groups_nodup sc0 (by rw [hk]; exact hc)
+  have hsub : ∀ q, some p = some q → q.cands.Nodup ∧ ∀ g ∈ scoreToRanking sc0, ∀ c ∈ g, c ∈ q.cands := by
+    intro q hq; injection hq with hq; subst hq
+    exact ⟨hc, fun g hg c hcg => hperm0.mem_iff.1 (List.mem_flatten.2 ⟨g, hg, hcg⟩)⟩
+  unfold electFromRanking at h1
+  split at h1; · cases h1
+  split at h1; · cases h1
+  obtain ⟨pre, post, hrest, hcase⟩ := electLoop_spec pri (some p) none m [] _ r hnd hsub h1
+  rcases hcase with ⟨_, h2, _, _⟩ | ⟨_, _, _, t, _, _, ht, _⟩
+  · exact ⟨sc0, pre, post, h0, hrest, h2⟩
+  · cases ht
+
+/-- Plurality / SNTV instance -/
+theorem C01_plurality (p : Profile) (m : Nat) (tb : Option TB) (pri : List Cand) (st : States)
+    (hc : p.cands.Nodup) (h : pluralityRun p m tb pri = .ok st) :
+    (electedOf st).length = m ∧ eliminatedOf st = [] ∧
+    ∃ last, st.getLast? = some last ∧ (last.elected.flatten ++ last.remaining.flatten).Perm p.cands := by
+  unfold pluralityRun at h
+  split at h; · cases h
+  exact C01_topM_count_partition p m tb pri firstPlaceVotes st hc
+    (fun sc hsc => scoreFromRankings_keys p _ sc hsc) h
+
+/-- Borda instance (any valid score vector) -/
+theorem C01_borda (p : Profile) (m : Nat) (v : Option (List Rat)) (tb : Option TB) (pri : List Cand) (st : States)
+    (hc : p.cands.Nodup) (h : bordaRun p m v tb pri = .ok st) :
+    (electedOf st).length = m ∧ eliminatedOf st = [] ∧
+    ∃ last, st.getLast? = some last ∧ (last.elected.flatten ++ last.remaining.flatten).Perm p.cands := by
+  unfold bordaRun at h
+  have key : ∀ vec, (if !validVector vec then Outcome.raised Exn.valueError
+      else if !rankingValid p then Outcome.raised Exn.typeError
+      else topMRun p m tb pri (fun q => scoreFromRankings q vec)) = .ok st →
+      (electedOf st).length = m ∧ eliminatedOf st = [] ∧
+      ∃ last, st.getLast? = some last ∧ (last.elected.flatten ++ last.remaining.flatten).Perm p.cands := by
+    intro vec hv
+    split at hv; · cases hv
+    split at hv; · cases hv
+    exact C01_topM_count_partition p m tb pri _ st hc
+      (fun sc hsc => scoreFromRankings_keys p _ sc hsc) hv
+  exact key _ h
+
+/-! non-vacuity: an STV count and a Plurality election that finish -/
+def exBallots : List Ballot := [Ballot.mk [[0], [1]] 3 [], Ballot.mk [[1]] 2 []]
+def exProfile : Profile := Profile.mk exBallots [0, 1]
+example : (stvRun { m := 1 } exProfile {}).isOk = true := by decide +kernel
+example : (pluralityRun exProfile 1 none []).isOk = true := by decide +kernel
 
 end VK
